@@ -2,6 +2,7 @@
 mod c05;
 mod c06;
 mod c07;
+mod c08;
 mod c13;
 
 fn main() {
@@ -11,6 +12,7 @@ fn main() {
         Some("c05") => c05::main(&args[1..]),
         Some("c06") => c06::main(&args[1..]),
         Some("c07") => c07::main(&args[1..]),
+        Some("c08") => c08::main(&args[1..]),
         Some("c13") => c13::main(&args[1..]),
         _ => {
             eprintln!("usage: fv-write <c06|...> ...");
